@@ -50,7 +50,7 @@ def build_env(args):
                             stats['model_selfcheck_fail'].append(f'{c.name}:{klass}: {e}')
                     for d in cdc.directions(c):
                         try:
-                            frame = cdc.frame(c, body, d)
+                            frame = cdc.canonical_frame(c, body, d)
                         except RefError:
                             continue
                         hl = len(frame) - len(body)
